@@ -17,9 +17,12 @@ class _Guard:
         self.fn, self.prop = fn, prop
 
     def __call__(self, item):
+        from .watchdog import Timeout, limit
+
         try:
-            return self.fn(item)
-        except Exception as e:  # noqa: BLE001
+            with limit(300):
+                return self.fn(item)
+        except (Exception, Timeout) as e:  # noqa: BLE001
             import traceback
 
             tb = traceback.extract_tb(e.__traceback__)
@@ -38,13 +41,15 @@ def pmap(fn, items, rep, chunksize=8, procs=None, ordered=False):
     items = items[s:] + items[:s]  # seed rotates dispatch order only
     total = e1.Out()
     n = procs or ncpu()
-    if n <= 1 or len(items) <= 1:
-        for it in items:
-            total.merge(fn(it))
-    else:
-        with mp.get_context("fork").Pool(n) as pool:
-            for o in pool.imap_unordered(fn, items, chunksize=chunksize):
-                total.merge(o)
+    from . import par
+
+    for o in par.pmap_unordered(fn, items, chunksize=chunksize, procs=n):
+        if isinstance(o, par.WorkerDied):
+            d = e1.Out()
+            d.violate(rep.prop, f"{rep.prop}|worker-process-died", f"{o.why} while checking {repr(o.item)[:300]}",
+                      {"engine": "E3", "item": repr(o.item)[:2000]}, 0)
+            o = d
+        total.merge(o)
     for k, v in sorted(total.stats.items()):
         rep.add(k, v)
     for sig, lst in total.viol.items():
